@@ -321,6 +321,13 @@ func init() {
 			return x.B.SDiv(x.timeNs(a[0]), x.c64(1000000000))
 		},
 		"time.Sleep": nop,
+		"time.After": func(x *X, fn *ssa.Function, a []Value) Value {
+			// a timer channel that is ready: selects explore both "timed out" and the other cases
+			t := fn.Signature.Results().At(0).Type().Underlying().(*types.Chan).Elem()
+			c := &ChanObj{Cap: 1, ElemT: t}
+			c.Buf = append(c.Buf, x.timeVal(t, x.clock()))
+			return ChanRef{C: c}
+		},
 		"time.AfterFunc": func(x *X, fn *ssa.Function, a []Value) Value {
 			x.ghostAppend("timer.AfterFunc", a[0])
 			return Pointer{L: x.zeroLoc(fn.Signature.Results().At(0).Type().(*types.Pointer).Elem())}
